@@ -20,6 +20,7 @@ type BytesObj struct {
 	cap   *Term // BV64
 	epoch int
 	tag   string // provenance label ("input", ...)
+	aliasOf *BytesObj // this object is a view into another buffer (decoder call-backs)
 }
 
 type BytesV struct {
